@@ -58,6 +58,11 @@ FACTS = [
 
 
 def check(run):
+    from checks import gluechecks as GC
+    ctx = GC.Ctx(run, 'C07')
+    GC.dumper_init(ctx)         # representation invariant established
+    GC.dumper_emit(ctx)
+    GC.json_options(ctx)        # indent / ensure_ascii plumbing
     facts = [('C07-tree-lemma::fact#%d' % i, src, label)
              for i, (label, src) in enumerate(FACTS)]
     run.verify_functions(TARGETS, lemmas=False, facts=facts)
